@@ -16,6 +16,6 @@ cd "$V"
 for P in "$@"; do
   VERIF_REPO="$W" VERIF_EVIDENCE_DIR="$W.out" VERIF_REPLAY_DIR="$W.out" ./check "$P" ${TIER:-quick} > "$W.log" 2>&1
   rc=$?
-  if [ $rc -eq 1 ]; then echo "$ID check $P: DETECTED $(grep -m1 '^  key=' "$W.log" | cut -c1-220)" | tee -a "$DST/confirm.log"
-  else echo "$ID check $P: not detected (rc=$rc) $(grep -m1 INCONCLUSIVE "$W.log" | cut -c1-200)" | tee -a "$DST/confirm.log"; fi
+  if [ $rc -eq 1 ]; then echo "check $P: DETECTED $(grep -m1 '^  key=' "$W.log" | cut -c1-220)" | tee -a "$DST/confirm.log" | sed "s/^/$ID /"
+  else echo "check $P: not detected (rc=$rc) $(grep -m1 INCONCLUSIVE "$W.log" | cut -c1-200)" | tee -a "$DST/confirm.log" | sed "s/^/$ID /"; fi
 done
